@@ -72,8 +72,41 @@ def gen_phases():
     return phases
 
 
+def gen_map_sites(ctx):
+    """T-table: every `range` over a map-typed expression in the tooling (go/types based inventory, harness/go/sites)."""
+    import subprocess
+    from vlib import VERIF, CACHE, GOENV
+    exe = os.path.join(CACHE, "bin", "sites")
+    env = dict(GOENV)
+    p = subprocess.run(["go", "build", "-o", exe, "./sites"], cwd=os.path.join(VERIF, "harness", "go"), env=env,
+                       stdout=subprocess.PIPE, stderr=subprocess.PIPE, text=True)
+    if p.returncode != 0:
+        raise RuntimeError("cannot build the site inventory tool: " + p.stderr[-1500:])
+    p = subprocess.run([exe, os.path.join(REPO, "tooling")], env=env, stdout=subprocess.PIPE, stderr=subprocess.PIPE, text=True)
+    if p.returncode != 0:
+        raise RuntimeError("site inventory failed (does the tree type-check?): " + p.stderr[-1500:])
+    sites = [json.loads(ln) for ln in p.stdout.strip().split("\n") if ln]
+    uniq = []
+    for s_ in sites:
+        k = (s_["file"], s_["func"], s_["expr"])
+        if k not in uniq:
+            uniq.append(k)
+    L = ["(* GENERATED on every run by harness/lib/gentables.py (go/types inventory harness/go/sites). Do not edit. *)",
+         "From Coq Require Import List String.", "Import ListNotations.", "Open Scope string_scope.", "",
+         "(* every `for ... range m` over a map-typed m in /repo/tooling (non-test files): (file, function, expression) *)",
+         "Definition map_range_sites : list (string * string * string) :=", "  [" + ";\n   ".join('("%s", "%s", "%s")' % k for k in uniq) + "].", ""]
+    text = "\n".join(L)
+    path = os.path.join(COQ, "Gen", "MapSites.v")
+    old = open(path).read() if os.path.exists(path) else None
+    if old != text:
+        with open(path, "w") as f:
+            f.write(text)
+    return sites
+
+
 def regenerate(ctx):
     gen_phases()
+    gen_map_sites(ctx)
     t = json.loads(ctx.hook_call(["tables"]))
     L = ["(* GENERATED on every run from /repo by harness/lib/gentables.py (hook `yardl-verif tables`). Do not edit. *)",
          "From Coq Require Import NArith.", "From YV Require Import Model.Binary.", "Open Scope N_scope.", "",
